@@ -200,6 +200,8 @@ impl Prop for C06 {
         let mut n = 0;
         let mut fails = vec![];
         let mut run = |case: Case, ctx: &mut Ctx, fails: &mut Vec<(Case, Vec<Violation>)>| {
+            crate::runner::case_started();
+            let t_cpu = crate::runner::process_cpu_ms();
             let mut c = Ctx::default();
             let vs = C06::check_case(&case, &mut c);
             for (k, v) in c.facts {
@@ -211,6 +213,11 @@ impl Prop for C06 {
             for (k, v) in c.skips {
                 *ctx.skips.entry(k).or_insert(0) += v;
             }
+            let used = crate::runner::process_cpu_ms().saturating_sub(t_cpu);
+            ctx.max("enumerated_case_cpu_ms", used);
+            if used > 5000 {
+                eprintln!("slow enumerated case {} ({} profile): {used} ms of CPU time", case.mode, if cfg!(debug_assertions) { "checked" } else { "release" });
+            }
             if !vs.is_empty() {
                 fails.push((case, vs));
             }
@@ -218,7 +225,7 @@ impl Prop for C06 {
         for kind in 0..16 {
             for (si, size) in sizes.iter().enumerate() {
                 // analysis-heavy families stay small: their cost is the subject of the work bound, not of a stress test
-                let size = if (6..=9).contains(&kind) { (*size).min(if tier == Tier::Thorough { 2000 } else { 400 }) } else { *size };
+                let size = if kind == 9 { (*size).min(if tier == Tier::Thorough { 400 } else { 250 }) } else if (6..=8).contains(&kind) { (*size).min(if tier == Tier::Thorough { 2000 } else { 400 }) } else { *size };
                 n += 1;
                 run(
                     Case {
@@ -270,6 +277,51 @@ impl Prop for C06 {
                         mode: format!("family:18:{k}"),
                         cli_mode: mode.into(),
                         release: k % 2 == 0,
+                    },
+                    ctx,
+                    &mut fails,
+                );
+            }
+        }
+        // runs of one character / one token, through the CLI first (a stack overflow there is an abort of the child, not of this worker)
+        for k in 0..(text::CHAR_TABLE.len() * 4) {
+            n += 1;
+            let mode = ["compact", "pretty", "json"][k % 3];
+            run(
+                Case {
+                    files: vec![("main.s".into(), text::family(19, k))],
+                    mode: format!("family:19:{k}"),
+                    cli_mode: mode.into(),
+                    release: k % 2 == 0,
+                },
+                ctx,
+                &mut fails,
+            );
+        }
+        let n_tokens = text::WORDS.len() + text::LITERALS.len() + text::PUNCT.len();
+        for k in 0..(n_tokens * 3) {
+            n += 1;
+            run(
+                Case {
+                    files: vec![("main.s".into(), text::family(21, k))],
+                    mode: format!("family:21:{k}"),
+                    cli_mode: if k >= n_tokens * 2 || k % 7 == 0 { ["compact", "pretty", "json"][k % 3].into() } else { String::new() },
+                    release: k % 2 == 0,
+                },
+                ctx,
+                &mut fails,
+            );
+        }
+        // long lines ending in multi-byte characters, in the mode that prints source excerpts (and the others)
+        for k in 0..(4 * 5 * 5) {
+            for mode in ["pretty", "compact"] {
+                n += 1;
+                run(
+                    Case {
+                        files: vec![("main.s".into(), text::family(20, k))],
+                        mode: format!("family:20:{k}"),
+                        cli_mode: mode.into(),
+                        release: k % 2 == 1,
                     },
                     ctx,
                     &mut fails,
